@@ -717,6 +717,21 @@ def _cumsum(x, dim=None, **k):
     return ST(np.asarray(np.cumsum(_obj_f(x), axis=int(dim)), dtype=object))
 
 
+@reg("diff")
+def _diff(x, n=1, dim=-1, prepend=None, append=None):
+    a = _obj_f(x)
+    dim = int(dim)
+    parts = ([_obj_f(prepend)] if prepend is not None else []) + [a] + ([_obj_f(append)] if append is not None else [])
+    if len(parts) > 1:
+        a = np.concatenate(parts, axis=dim)
+    for _ in range(int(n)):
+        hi = [slice(None)] * a.ndim
+        lo = [slice(None)] * a.ndim
+        hi[dim], lo[dim] = slice(1, None), slice(None, -1)
+        a = a[tuple(hi)] - a[tuple(lo)]
+    return ST(np.asarray(a, dtype=object))
+
+
 @reg("cumprod")
 def _cumprod(x, dim=None, **k):
     return ST(np.asarray(np.cumprod(_obj_f(x), axis=int(dim)), dtype=object))
